@@ -231,6 +231,15 @@ func c06Containers(r *mc.Report, n int, orderDev int, shard, nshards int) {
 					// the same set with every dependency declared optional (and registered)
 					c06Config(r, cfgCase{N: n, Mask: mask, Life: life, Target: t, Shape: "in", OptMask: mask}, orderDev)
 				}
+				if mask != 0 && fmt.Sprint(t) == fmt.Sprint(uniformTargets(n, "plain")) {
+					// the same set with one dependency (each in turn) / every dependency declared twice
+					c06Config(r, cfgCase{N: n, Mask: mask, Life: life, Target: t, Shape: "positional", DupMask: mask}, orderDev)
+					for b := 0; b < n*n; b++ {
+						if mask&(1<<b) != 0 && mask != 1<<b {
+							c06Config(r, cfgCase{N: n, Mask: mask, Life: life, Target: t, Shape: "positional", DupMask: 1 << b}, orderDev)
+						}
+					}
+				}
 			}
 		}
 	}
@@ -272,12 +281,17 @@ func c06Topo(r *mc.Report, n int, orderDev int, shard, nshards int) {
 		if m.cyclic() {
 			continue
 		}
-		for _, rev := range []bool{false, true} {
+		for _, variant := range []struct{ rev, dup bool }{{false, false}, {true, false}, {false, true}} {
 			var fs []Finding
+			rev, dupFirst := variant.rev, variant.dup
 			body := func() {
 				st := newGState(pool)
 				for i := 0; i < n; i++ {
-					st.apply(gop{Kind: "defer", N: i, Deps: adj[i]})
+					deps := adj[i]
+					if dupFirst && len(deps) > 0 {
+						deps = append([]int{deps[0]}, deps...)
+					}
+					st.apply(gop{Kind: "defer", N: i, Deps: deps})
 				}
 				st.apply(gop{Kind: "detect"})
 				fs = st.queries(0)
@@ -300,7 +314,7 @@ func c06Topo(r *mc.Report, n int, orderDev int, shard, nshards int) {
 func init() {
 	mc.Register(&mc.Check{
 		Prop:        "C06",
-		Rule:        "container: all digraphs on <=3 services x all per-target forms {plain, keyed, group} x 2-4 lifetime patterns (each also with every dependency declared optional), the 64 DAGs (+ sampled-by-mask cyclic sets) on 4 services x uniform forms, and 12 configurations with a two-member group whose members have dependencies; each x ALL permutations of the registration calls (intra-group order preserved) x canonical and reversed base map-iteration order, plus every single non-identity permutation of one map range during Build (order deviation 1; 2 in thorough for n<=3): one verdict class and one canonical object graph per configuration, and every singleton constructed after the singletons it depends on (group edges included). Graph component: every labelled DAG on <=4 nodes (543) x both base orders x order deviation 1 (2 thorough): TopologicalSort lists every node once, dependencies first. distinct = (size, forms, verdict) classes.",
+		Rule:        "container: all digraphs on <=3 services x all per-target forms {plain, keyed, group} x 2-4 lifetime patterns (each also with every dependency declared optional), the 64 DAGs (+ sampled-by-mask cyclic sets) on 4 services x uniform forms, and 12 configurations with a two-member group whose members have dependencies; (plain-form sets also with one / every dependency declared twice); each x ALL permutations of the registration calls (intra-group order preserved) x canonical and reversed base map-iteration order, plus every single non-identity permutation of one map range during Build (order deviation 1; 2 in thorough for n<=3): one verdict class and one canonical object graph per configuration, and every singleton constructed after the singletons it depends on (group edges included). Graph component: every labelled DAG on <=4 nodes (543) x both base orders (and once with every node's first dependency declared twice) x order deviation 1 (2 thorough): TopologicalSort lists every node once, dependencies first. distinct = (size, forms, verdict) classes.",
 		Assume:      []string{"map iteration order is a controlled choice: every `range` over a map in godi is redirected to the explorer", "repeated builds with different hash seeds are subsumed by the enumerated iteration orders"},
 		MinOutcomes: 6,
 		Jobs: func(tier string) []mc.Job {
